@@ -595,6 +595,10 @@ def run(ctx, chk):
     # structural necessary conditions for termination of the sweeps
     C01.r4_sweep(ctx, chk, "C06.term:C01.4")
     C02.r3_sweep(ctx, chk, "C06.term:C02.3")
+    # "every well-formed game is solved": the validation must not refuse (or crash on) a well-formed description
+    from . import C09
+    C09.r123_check_game(ctx, chk, "C06.pre:C09.1")
+    C09.r4_check_next_states(ctx, chk, "C06.pre:C09.1")
     if not shared.identity_on_values(ctx, chk, "C06.5", shared.SOLVER_MODULES):
         chk.ok("C06.5", "tad.py, reverse_dfs.py", "no identity comparison (`is`) between strings / numbers in the solver: player kinds and indices are compared by value")
     chk.require_instances("C06.1", 6)
